@@ -90,15 +90,31 @@ class Builder:
             if e.get("dk") == "ParmVar":
                 return atom(e.get("n"))
             raise NotPolynomial("unknown variable %s" % e.get("n"))
+        if k == "InitListExpr":
+            return ("struct", [self.build(c, env, fn, depth + 1) for c in e.get("c", [])])
         if k == "MemberExpr":
             base = strip_all(e["c"][0]) if e.get("c") else None
             if base is None or base.get("k") == "CXXThisExpr":
                 return atom(e.get("n"))
+            # a field of a struct value that was built from a braced list (possibly handed to this function)
+            try:
+                sv = self.build(base, env, fn, depth + 1)
+            except NotPolynomial:
+                sv = None
+            if isinstance(sv, tuple) and sv[0] == "struct":
+                rt = notpl((base.get("ct") or base.get("t") or "").replace("const ", "").replace("&", "").strip())
+                rec = [rc for q_, rc in self.prog.records.items() if notpl(q_).split("::")[-1] == rt.split("::")[-1]]
+                if rec:
+                    names = [f_["n"] for f_ in rec[0]["fields"]]
+                    if e.get("n") in names and names.index(e.get("n")) < len(sv[1]):
+                        return sv[1][names.index(e.get("n"))]
             raise NotPolynomial("member of another object: %s" % show(e))
         if k == "BinaryOperator":
             op = e.get("op")
             a = self.build(e["c"][0], env, fn, depth + 1)
             b = self.build(e["c"][1], env, fn, depth + 1)
+            if isinstance(a, tuple) or isinstance(b, tuple):
+                raise NotPolynomial("arithmetic on a struct value")
             if op == "+":
                 return add(a, b)
             if op == "-":
